@@ -71,6 +71,23 @@ class PipeScenario(Scenario):
                 scen.log.append(("f-out", "f", scen.loop.time(), _freeze(x)))
                 return x
             return up.map_async(f, parallelism=a[0])
+        if name == "map_async_eager":
+            # a mapped function that starts its work when *called* and hands back a future
+            # (executor.submit / gen.coroutine style), unlike a lazy native coroutine
+            def f(x):
+                g = scen.gate("f:%r" % (x,))
+                scen.log.append(("f-in", "f", scen.loop.time(), _freeze(x)))
+                out = scen.loop.create_future()
+
+                def done(fut):
+                    scen.log.append(("f-out", "f", scen.loop.time(), _freeze(x)))
+                    if fut.exception() is not None:
+                        out.set_exception(fut.exception())
+                    else:
+                        out.set_result(x)
+                g.fut.add_done_callback(done)
+                return out
+            return up.map_async(f, parallelism=a[0])
         if name == "timed_window":
             return up.timed_window(a[0])
         if name == "timed_window_unique":
